@@ -1,6 +1,7 @@
 """Recorder for C14: real builder, real FileWriter objects on scratch files and
 in-memory streams, custom BaseWriter subclasses. After every action the content
 of every output is read back (files through a second handle)."""
+import logging
 import io
 import os
 import shutil
@@ -140,14 +141,26 @@ class WSession:
 
     def apply(self, d):
         g, act = self.g, d["act"]
-        out, data = "ok", b""
+        out, data, unenc = "ok", b"", False
         try:
             if act == "add":
                 g.add_writer(self.writers[d["w"] - 1])
             elif act == "remove":
                 g.remove_writer(self.writers[d["w"] - 1])
             elif act == "write":
-                if d.get("comment"):
+                try:
+                    d["text"].encode("utf-8")
+                except UnicodeEncodeError:
+                    # a statement with no UTF-8 form (a lone surrogate, e.g. from os.fsdecode): it cannot be delivered "as the
+                    # same UTF-8 bytes", so the only conforming outcome is a refusal that reaches no writer (added after seed C14k)
+                    unenc = True
+                if unenc:
+                    logging.disable(logging.ERROR)        # the library logs the refusal with a traceback: keep the check's output readable
+                    try:
+                        (g.comment if d.get("comment") else g.write)(d["text"])
+                    finally:
+                        logging.disable(logging.NOTSET)
+                elif d.get("comment"):
                     data = ("; " + d["text"]).rstrip().encode("utf-8") + self.eol.encode()
                     g.comment(d["text"])
                 else:
@@ -171,7 +184,7 @@ class WSession:
                 raise KeyError(act)
         except Exception as e:
             out = type(e).__name__
-        ev = {"act": act, "w": d.get("w", 0), "data": list(data), "out": out, "obs": self.observe(),
+        ev = {"act": act, "w": d.get("w", 0), "data": list(data), "out": out, "unenc": unenc, "obs": self.observe(),
               "nreg": self.nreg(), "disc": list(self.disc)}
         self.events.append(ev)
         return ev
